@@ -3,94 +3,207 @@ From GD Require Import C05.LzmaWindow.
 Import ListNotations.
 Local Open Scope Z_scope.
 
+(* ranges copied to the caller form one contiguous piece of the stream *)
+Fixpoint chain (c0 : Z) (out : list (Z * Z)) (c : Z) : Prop :=
+  match out with
+  | [] => c0 = c
+  | (p, l) :: r => p = c0 /\ 0 <= l /\ chain (c0 + l) r c
+  end.
+
+Fixpoint total (out : list (Z * Z)) : Z :=
+  match out with [] => 0 | (_, l) :: r => l + total r end.
+
+Lemma chain_app c0 out c l : chain c0 out c -> 0 <= l -> chain c0 (out ++ [(c, l)]) (c + l).
+Proof.
+  revert c0. induction out as [|[p q] r IH]; cbn; intros c0 H Hl.
+  - subst. repeat split; lia.
+  - destruct H as (H1 & H2 & H3). repeat split; try assumption. apply IH; assumption.
+Qed.
+
+Lemma chain_total c0 out c : chain c0 out c -> c = c0 + total out.
+Proof.
+  revert c0. induction out as [|[p l] r IH]; cbn; intros c0 H; [lia|].
+  destruct H as (_ & _ & H). rewrite (IH _ H). lia.
+Qed.
+
+Lemma total_app out p l : total (out ++ [(p, l)]) = total out + l.
+Proof. induction out as [|[a b] r IH]; cbn; lia. Qed.
+
 Section Proofs.
   Variables DOUT LB size L : Z.
-  Variable orc : lzst -> Z -> Z * bool.
+  Variable orc : lzst -> Z -> Z * lzresp.
   Hypothesis Hsize : 0 < size.
   Hypothesis HLB : size - 1 <= LB.
   Hypothesis HDOUT : LB <= DOUT.
   Hypothesis HL : 0 <= L.
 
   (* every reachable state: the offset is inside the filled part of the output
-     buffer, the filled part inside the buffer, and the buffer holds decoded bytes *)
+     buffer, the filled part inside the buffer, the buffer holds decoded bytes,
+     and the end flag is raised only when everything has been decoded *)
   Definition Inv (s : lzst) : Prop :=
-    0 <= off s /\ off s <= nout s /\ nout s <= DOUT /\ nout s <= tout s /\ tout s <= L.
+    0 <= off s /\ off s <= nout s /\ nout s <= DOUT /\ nout s <= tout s /\ tout s <= L /\
+    (eof s = true -> tout s = L).
 
   Hypothesis orc_ok : forall s nreq, Inv s -> ok_resp DOUT L s nreq (orc s nreq).
 
   Lemma inv_fresh : Inv fresh.
-  Proof. unfold Inv, fresh; cbn; lia. Qed.
+  Proof. unfold Inv, fresh; cbn. repeat apply conj; try lia; discriminate. Qed.
 
   Lemma ready_call_inv s nreq :
-    Inv s -> Inv (ready_call size orc s nreq) /\ cursor (ready_call size orc s nreq) = cursor s.
+    Inv s -> Inv (fst (ready_call size orc s nreq)) /\ cursor (fst (ready_call size orc s nreq)) = cursor s.
   Proof.
     intros Hi. unfold ready_call.
     destruct (eof s || (size <=? ready s)); [split; [exact Hi | reflexivity]|].
     pose proof (orc_ok s nreq Hi) as Ho. unfold ok_resp, avail in Ho.
-    destruct Ho as (H1 & H2 & H3 & _ & _).
-    unfold Inv, cursor, base in *; cbn. lia.
+    destruct Ho as (H1 & H2 & H3 & H4 & _).
+    destruct Hi as (I1 & I2 & I3 & I4 & I5 & I6).
+    cbn [fst]. split; [|unfold cursor, base; cbn; lia].
+    unfold Inv; cbn. repeat apply conj; try lia.
+    destruct (snd (orc s nreq)); cbn; try discriminate. intros _. apply H4; reflexivity.
   Qed.
 
   Lemma clear_inv s part :
     Inv s -> 0 <= part -> part <= ready s -> part <= LB ->
     Inv (clear LB s part) /\ cursor (clear LB s part) = tout s - part.
   Proof.
-    intros Hi Hp Hr Hl. unfold Inv, clear, cursor, base, ready in *; cbn. lia.
+    intros (I1 & I2 & I3 & I4 & I5 & I6) Hp Hr Hl. unfold ready in Hr.
+    split; [|unfold clear, cursor, base; cbn; lia].
+    unfold Inv, clear; cbn. repeat apply conj; try lia. exact I6.
   Qed.
 
-  (* ranges copied to the caller form one contiguous piece of the stream *)
-  Fixpoint chain (c0 : Z) (out : list (Z * Z)) (c : Z) : Prop :=
-    match out with
-    | [] => c0 = c
-    | (p, l) :: r => p = c0 /\ 0 <= l /\ chain (c0 + l) r c
-    end.
-
-  Lemma chain_app c0 out c l : chain c0 out c -> 0 <= l -> chain c0 (out ++ [(c, l)]) (c + l).
-  Proof.
-    revert c0. induction out as [|[p q] r IH]; cbn; intros c0 H Hl.
-    - subst. repeat split; lia.
-    - destruct H as (H1 & H2 & H3). repeat split; try assumption. apply IH; assumption.
-  Qed.
-
-  Fixpoint total (out : list (Z * Z)) : Z :=
-    match out with [] => 0 | (_, l) :: r => l + total r end.
-
-  Lemma chain_total c0 out c : chain c0 out c -> c = c0 + total out.
-  Proof.
-    revert c0. induction out as [|[p l] r IH]; cbn; intros c0 H; [lia|].
-    destruct H as (_ & _ & H). rewrite (IH _ H). lia.
-  Qed.
-
-  Lemma total_app out p l : total (out ++ [(p, l)]) = total out + l.
-  Proof. induction out as [|[a b] r IH]; cbn; lia. Qed.
-
-  (* the read loop, for ANY fuel: invariant kept, the count stays within the
-     request, what is copied is exactly count*size contiguous bytes of the
-     stream starting at the cursor, and the cursor advances by that much *)
-  Ltac fin4 := split; [assumption | split; [lia | split; [try assumption | try assumption; try lia]]].
-
+  (* the read loop, for ANY fuel and ANY outcome: invariant kept, the count stays
+     within the request, what is copied is exactly count*size contiguous bytes of
+     the stream starting at the cursor, and the cursor advances by that much; when
+     the call completes, either everything asked for was delivered or the end of
+     the stream has been seen and less than one sample is left *)
   Lemma lzma_read_loop_spec nmemb c0 : forall fuel s rem nread out,
     Inv s -> 0 <= nread <= nmemb -> rem = (nmemb - nread) * size ->
     chain c0 out (cursor s) -> total out = nread * size ->
-    let '(s', n', out') := lzma_read_loop LB size orc fuel s rem nread nmemb out in
-    Inv s' /\ nread <= n' <= nmemb /\ chain c0 out' (cursor s') /\ total out' = n' * size.
+    let '(s', n', out', st) := lzma_read_loop LB size orc fuel s rem nread nmemb out in
+    Inv s' /\ chain c0 out' (cursor s') /\
+    (st <> LzErr -> nread <= n' <= nmemb /\ total out' = n' * size) /\
+    (st = LzDone -> n' = nmemb \/ (eof s' = true /\ ready s' < size)).
   Proof.
-    induction fuel as [|f IH]; intros s rem nread out Hi Hn Hrem Hc Ht; cbn [lzma_read_loop].
-    - fin4.
-    - destruct (Z.leb_spec rem 0) as [Hz|Hz]; [fin4|].
+    induction fuel as [|f IH]; intros s rem nread out Hi Hn Hrem Hc Ht; cbn [lzma_read_loop];
+      assert (Hnn0 : nread <= nread <= nmemb) by lia.
+    - refine (conj Hi (conj Hc (conj (fun _ => conj Hnn0 Ht) _))). discriminate.
+    - destruct (Z.leb_spec rem 0) as [Hz|Hz].
+      { refine (conj Hi (conj Hc (conj (fun _ => conj Hnn0 Ht) _))). intros _. left. nia. }
       destruct (ready_call_inv s rem Hi) as [Hi1 Hc1].
-      set (s1 := ready_call size orc s rem) in *.
+      destruct (ready_call size orc s rem) as [s1 failed]. cbn [fst] in Hi1, Hc1.
+      destruct failed.
+      { refine (conj Hi1 (conj _ (conj _ _))); [rewrite Hc1; exact Hc | intros H; exfalso; apply H; reflexivity | discriminate]. }
       destruct (Z.ltb_spec (ready s1) size) as [Hlt|Hge].
       + (* fewer bytes than one sample: keep them, make room *)
-        assert (Hr0 : 0 <= ready s1) by (unfold Inv, ready in *; lia).
+        assert (Hr0 : 0 <= ready s1) by (destruct Hi1 as (? & ? & _); unfold ready; lia).
         destruct (clear_inv s1 (ready s1) Hi1 Hr0 ltac:(lia) ltac:(lia)) as [Hi2 Hc2].
         assert (Hcur : cursor (clear LB s1 (ready s1)) = cursor s).
         { rewrite Hc2, <- Hc1. unfold cursor, base, ready. lia. }
-        destruct (eof (clear LB s1 (ready s1))).
-        * split; [assumption | split; [lia | split; [rewrite Hcur; exact Hc | assumption]]].
+        assert (Hrd : ready (clear LB s1 (ready s1)) = ready s1) by (unfold ready, clear; cbn; lia).
+        destruct (eof (clear LB s1 (ready s1))) eqn:He.
+        * refine (conj Hi2 (conj _ (conj (fun _ => conj Hnn0 Ht) _))); [rewrite Hcur; exact Hc|].
+          intros _. right. split; [exact He | lia].
         * apply IH; try assumption. rewrite Hcur; exact Hc.
       + (* copy whole samples *)
         set (sr := Z.min (ready s1 / size) (nmemb - nread)).
+        assert (Hq : 1 <= ready s1 / size) by (apply Z.div_le_lower_bound; lia).
+        assert (Hqs : (ready s1 / size) * size <= ready s1)
+          by (rewrite Z.mul_comm; apply Z.mul_div_le; lia).
+        assert (Hqs2 : ready s1 < (ready s1 / size) * size + size).
+        { pose proof (Z.mod_pos_bound (ready s1) size Hsize). pose proof (Z.div_mod (ready s1) size ltac:(lia)). lia. }
+        assert (Hnn : nread < nmemb) by nia.
+        assert (Hsr : 1 <= sr <= nmemb - nread) by (unfold sr; lia).
+        assert (Hb : sr * size <= ready s1) by (unfold sr; nia).
+        set (s2 := {| tout := tout s1; nout := nout s1; off := off s1 + sr * size; eof := eof s1 |}).
+        assert (Hi2 : Inv s2).
+        { destruct Hi1 as (I1 & I2 & I3 & I4 & I5 & I6). unfold ready in Hb.
+          unfold Inv, s2; cbn. repeat apply conj; try lia; try nia. exact I6. }
+        assert (Hc2 : cursor s2 = cursor s1 + sr * size) by (unfold cursor, base, s2; cbn; lia).
+        assert (Hch : chain c0 (out ++ [(cursor s1, sr * size)]) (cursor s2)).
+        { rewrite Hc2. apply chain_app; [rewrite Hc1; exact Hc | nia]. }
+        assert (Htt : total (out ++ [(cursor s1, sr * size)]) = (nread + sr) * size)
+          by (rewrite total_app, Ht; lia).
+        destruct (eof s2) eqn:He.
+        * assert (Hnn1 : nread <= nread + sr <= nmemb) by lia.
+          refine (conj Hi2 (conj Hch (conj (fun _ => conj Hnn1 Htt) _))).
+          intros _. destruct (Z.eq_dec (nread + sr) nmemb) as [E|E]; [left; exact E | right].
+          split; [exact He|].
+          assert (Hsrq : sr = ready s1 / size) by (unfold sr in *; lia).
+          unfold ready, s2; cbn. unfold ready in Hqs2, Hsrq. rewrite Hsrq. lia.
+        * specialize (IH s2 (rem - sr * size) (nread + sr) (out ++ [(cursor s1, sr * size)])
+                         Hi2 ltac:(lia) ltac:(subst rem; lia) Hch Htt).
+          destruct (lzma_read_loop LB size orc f s2 (rem - sr * size) (nread + sr) nmemb
+                              (out ++ [(cursor s1, sr * size)])) as [[[s' n'] out'] st].
+          destruct IH as (A & B & C & D).
+          refine (conj A (conj B (conj _ D))). intros Hne. destruct (C Hne) as [C1 C2]. split; [lia | exact C2].
+  Qed.
+
+  Lemma lzma_read_spec fuel s nmemb :
+    Inv s -> 0 <= nmemb ->
+    let '(s', n, out, st) := lzma_read LB size orc fuel s nmemb in
+    Inv s' /\ chain (cursor s) out (cursor s') /\ cursor s' <= L /\
+    (st <> LzErr -> 0 <= n <= nmemb /\ total out = n * size /\ cursor s' = cursor s + n * size) /\
+    (st = LzDone -> n = Z.min nmemb ((L - cursor s) / size)).
+  Proof.
+    intros Hi Hn. unfold lzma_read.
+    pose proof (lzma_read_loop_spec nmemb (cursor s) fuel s (nmemb * size) 0 [] Hi ltac:(lia) ltac:(lia) eq_refl eq_refl) as H.
+    destruct (lzma_read_loop LB size orc fuel s (nmemb * size) 0 nmemb []) as [[[s' n] out] st].
+    destruct H as (A & B & C & D).
+    pose proof (chain_total _ _ _ B) as Hcur.
+    assert (HcL : cursor s' <= L) by (destruct A as (? & ? & ? & ? & ? & ?); unfold cursor, base; lia).
+    refine (conj A (conj B (conj HcL (conj _ _)))).
+    - intros Hne. destruct (C Hne) as [C1 C2]. split; [lia|]. split; [exact C2 | lia].
+    - intros ->. destruct (C ltac:(discriminate)) as [C1 C2]. rewrite C2 in Hcur.
+      assert (Hle : n <= (L - cursor s) / size) by (apply Z.div_le_lower_bound; lia).
+      destruct (D eq_refl) as [E|[E1 E2]]; [lia|].
+      destruct A as (I1 & I2 & I3 & I4 & I5 & I6). specialize (I6 E1).
+      assert (Hlt : L - cursor s < (n + 1) * size) by (unfold cursor, base, ready in *; lia).
+      assert ((L - cursor s) / size < n + 1) by (apply Z.div_lt_upper_bound; lia).
+      lia.
+  Qed.
+
+  (* ---- termination of the read loop (needs room for one sample beyond the look-back) *)
+  Hypothesis HROOM : LB + size <= DOUT.
+
+  Definition stale (s : lzst) : Z := if LB <? nout s then 1 else 0.
+
+  Lemma lzma_read_loop_fuel nmemb : forall fuel s rem nread out,
+    Inv s -> 0 <= nread <= nmemb -> rem = (nmemb - nread) * size ->
+    2 * (nmemb - nread) + stale s < Z.of_nat fuel ->
+    snd (lzma_read_loop LB size orc fuel s rem nread nmemb out) <> LzFuel.
+  Proof.
+    induction fuel as [|f IH]; intros s rem nread out Hi Hn Hrem Hf; cbn [lzma_read_loop].
+    - exfalso. unfold stale in Hf. change (Z.of_nat 0) with 0 in Hf. destruct (LB <? nout s); lia.
+    - destruct (Z.leb_spec rem 0) as [Hz|Hz]; [cbn; discriminate|].
+      pose proof (ready_call_inv s rem Hi) as [Hi1 _].
+      (* what the ready call achieves from a state with a fresh buffer *)
+      assert (Hprog : nout s <= LB -> snd (ready_call size orc s rem) = false ->
+                      size <= ready (fst (ready_call size orc s rem)) \/ eof (fst (ready_call size orc s rem)) = true).
+      { intros Hfr. unfold ready_call.
+        destruct (eof s) eqn:Es; cbn [orb]; [intros _; right; exact Es|].
+        destruct (Z.leb_spec size (ready s)) as [Hr|Hr]; cbn [fst snd]; [intros _; left; exact Hr|].
+        pose proof (orc_ok s rem Hi) as Ho. unfold ok_resp, avail in Ho.
+        destruct Ho as (H1 & H2 & H3 & H4 & H5).
+        destruct (snd (orc s rem)) eqn:Er; cbn [resp_end resp_err]; [|intros _; right; reflexivity | discriminate].
+        intros _. left. destruct Hi as (I1 & I2 & I3 & I4 & I5 & I6). unfold ready in *. cbn [nout off].
+        destruct (H5 eq_refl) as [E|E]; [clear - E Hfr I2 HROOM; lia|]. assert (1 <= nmemb - nread) by (clear - Hrem Hz Hsize; nia). assert (size <= rem) by (clear - H Hrem Hsize; nia). lia. }
+      assert (Hnout : nout s <= nout (fst (ready_call size orc s rem))).
+      { unfold ready_call. destruct (eof s || (size <=? ready s)); cbn [fst]; [lia|].
+        pose proof (orc_ok s rem Hi) as Ho. destruct Ho as (H1 & _). cbn. lia. }
+      destruct (ready_call size orc s rem) as [s1 failed]. cbn [fst snd] in *.
+      destruct failed; [cbn; discriminate|].
+      destruct (Z.ltb_spec (ready s1) size) as [Hlt|Hge].
+      + assert (Hr0 : 0 <= ready s1) by (destruct Hi1 as (? & ? & _); unfold ready; lia).
+        destruct (clear_inv s1 (ready s1) Hi1 Hr0 ltac:(lia) ltac:(lia)) as [Hi2 _].
+        destruct (eof (clear LB s1 (ready s1))) eqn:He; [cbn; discriminate|].
+        apply IH; try assumption.
+        (* the state was stale: a fresh one would have produced a sample or the end *)
+        assert (Hst : LB < nout s).
+        { destruct (Z.lt_ge_cases LB (nout s)) as [G|G]; [exact G|].
+          destruct (Hprog G eq_refl) as [P|P]; [lia|]. unfold clear in He; cbn in He. congruence. }
+        unfold stale in *. destruct (Z.ltb_spec LB (nout s)); [|lia].
+        destruct (Z.ltb_spec LB (nout (clear LB s1 (ready s1)))) as [G|G]; [unfold clear in G; cbn in G; lia | lia].
+      + set (sr := Z.min (ready s1 / size) (nmemb - nread)).
         assert (Hq : 1 <= ready s1 / size) by (apply Z.div_le_lower_bound; lia).
         assert (Hqs : (ready s1 / size) * size <= ready s1)
           by (rewrite Z.mul_comm; apply Z.mul_div_le; lia).
@@ -98,79 +211,95 @@ Section Proofs.
         assert (Hsr : 1 <= sr <= nmemb - nread) by (unfold sr; lia).
         assert (Hb : sr * size <= ready s1) by (unfold sr; nia).
         set (s2 := {| tout := tout s1; nout := nout s1; off := off s1 + sr * size; eof := eof s1 |}).
-        assert (Hi2 : Inv s2) by (unfold Inv, s2, ready in *; cbn; nia).
-        assert (Hc2 : cursor s2 = cursor s1 + sr * size) by (unfold cursor, base, s2; cbn; lia).
-        assert (Hch : chain c0 (out ++ [(cursor s1, sr * size)]) (cursor s2)).
-        { rewrite Hc2. apply chain_app; [rewrite Hc1; exact Hc | nia]. }
-        assert (Htt : total (out ++ [(cursor s1, sr * size)]) = (nread + sr) * size)
-          by (rewrite total_app, Ht; lia).
-        destruct (eof s2).
-        * split; [assumption | split; [lia | split; [assumption | assumption]]].
-        * specialize (IH s2 (rem - sr * size) (nread + sr) (out ++ [(cursor s1, sr * size)])
-                         Hi2 ltac:(lia) ltac:(subst rem; lia) Hch Htt).
-          destruct (lzma_read_loop LB size orc f s2 (rem - sr * size) (nread + sr) nmemb
-                              (out ++ [(cursor s1, sr * size)])) as [[s' n'] out'].
-          destruct IH as (A & B & C & D). split; [assumption | split; [lia | split; assumption]].
+        destruct (eof s2); [cbn; discriminate|].
+        apply IH.
+        * destruct Hi1 as (I1 & I2 & I3 & I4 & I5 & I6). unfold ready in Hb.
+          unfold Inv, s2; cbn. repeat apply conj; try lia; try nia. exact I6.
+        * lia.
+        * subst rem; lia.
+        * unfold stale in *. cbn [nout s2]. destruct (LB <? nout s1); destruct (LB <? nout s); lia.
   Qed.
 
-  Lemma lzma_read_spec fuel s nmemb :
-    Inv s -> 0 <= nmemb ->
-    let '(s', n, out) := lzma_read LB size orc fuel s nmemb in
-    Inv s' /\ 0 <= n <= nmemb /\ chain (cursor s) out (cursor s') /\ total out = n * size
-    /\ cursor s' = cursor s + n * size /\ cursor s' <= L.
-  Proof.
-    intros Hi Hn. unfold lzma_read.
-    pose proof (lzma_read_loop_spec nmemb (cursor s) fuel s (nmemb * size) 0 [] Hi ltac:(lia) ltac:(lia) eq_refl eq_refl) as H.
-    destruct (lzma_read_loop LB size orc fuel s (nmemb * size) 0 nmemb []) as [[s' n] out].
-    destruct H as (A & B & C & D).
-    assert (Hcur : cursor s' = cursor s + n * size) by (rewrite (chain_total _ _ _ C), D; reflexivity).
-    split; [assumption | split; [lia | split; [assumption | split; [assumption | split; [assumption|]]]]].
-    unfold Inv in A. unfold cursor, base. lia.
-  Qed.
-
-  (* the forward-seek loop keeps the invariant and leaves the target at or after the buffer's base *)
+  (* the forward-seek loop *)
   Lemma lzma_seek_loop_spec bc : forall fuel s,
-    Inv s -> (tout s < bc \/ base s <= bc) ->
-    let s' := lzma_seek_loop DOUT LB size orc fuel s bc in
-    Inv s' /\ (tout s' < bc \/ base s' <= bc).
+    Inv s -> base s <= bc ->
+    let '(s', st) := lzma_seek_loop DOUT LB size orc fuel s bc in
+    Inv s' /\ base s' <= bc /\
+    (st = LzDone -> bc <= tout s' \/ eof s' = true) /\
+    (L - tout s < Z.of_nat fuel -> st <> LzFuel).
   Proof.
-    induction fuel as [|f IH]; intros s Hi Hb; cbn [lzma_seek_loop]; [split; assumption|].
-    destruct (Z.ltb_spec (tout s) bc) as [Hlt|Hge]; [|split; [assumption | right; destruct Hb; [lia|assumption]]].
-    assert (Hr0 : 0 <= ready s) by (unfold Inv, ready in *; lia).
-    assert (HLB0 : 0 <= LB) by lia.
-    destruct (clear_inv s 0 Hi ltac:(lia) Hr0 HLB0) as [Hi1 Hc1].
-    set (s1 := clear LB s 0) in *.
-    destruct (ready_call_inv s1 (avail DOUT s1) Hi1) as [Hi2 Hc2].
-    set (s2 := ready_call size orc s1 (avail DOUT s1)) in *.
-    assert (Hbase : base s2 <= bc).
-    { assert (Hb2 : base s2 = base s1).
-      { unfold s2, ready_call. destruct (eof s1 || (size <=? ready s1)); [reflexivity|]. unfold base; cbn; lia. }
-      rewrite Hb2. unfold s1, clear, base; cbn. unfold Inv in Hi. lia. }
-    destruct (eof s2); [split; [assumption | right; exact Hbase]|].
-    apply IH; [assumption | right; exact Hbase].
+    induction fuel as [|f IH]; intros s Hi Hb; cbn [lzma_seek_loop].
+    - refine (conj Hi (conj Hb (conj _ _))); [discriminate|].
+      intros Hf. exfalso. destruct Hi as (? & ? & ? & ? & ? & ?). cbn in Hf. lia.
+    - destruct (Z.ltb_spec (tout s) bc) as [Hlt|Hge].
+      2:{ refine (conj Hi (conj Hb (conj _ _))); [intros _; left; lia | discriminate]. }
+      assert (Hr0 : 0 <= ready s) by (destruct Hi as (? & ? & _); unfold ready; lia).
+      assert (HLB0 : 0 <= LB) by lia.
+      destruct (clear_inv s 0 Hi ltac:(lia) Hr0 HLB0) as [Hi1 Hc1].
+      set (s1 := clear LB s 0) in *.
+      destruct (ready_call_inv s1 (avail DOUT s1) Hi1) as [Hi2 Hc2].
+      assert (Hbase : base (fst (ready_call size orc s1 (avail DOUT s1))) <= bc /\
+                      (snd (ready_call size orc s1 (avail DOUT s1)) = false ->
+                       eof (fst (ready_call size orc s1 (avail DOUT s1))) = false ->
+                       tout s < tout (fst (ready_call size orc s1 (avail DOUT s1))))).
+      { unfold ready_call.
+        assert (Hb1 : base s1 <= bc) by (destruct Hi as (? & ? & ? & ? & ? & ?); unfold s1, clear, base; cbn; lia).
+        assert (Hrd : ready s1 = 0) by (unfold s1, clear, ready; cbn; lia).
+        destruct (eof s1) eqn:E1; cbn [orb fst snd].
+        { split; [exact Hb1 | intros _ H; congruence]. }
+        destruct (Z.leb_spec size (ready s1)); [lia|]. cbn [fst snd].
+        pose proof (orc_ok s1 (avail DOUT s1) Hi1) as Ho. unfold ok_resp in Ho.
+        destruct Ho as (H1 & H2 & H3 & H4 & H5).
+        split; [unfold base in *; cbn; lia|].
+        intros Hnf Hne. cbn in *. destruct (snd (orc s1 (avail DOUT s1))); cbn in *; try discriminate.
+        assert (Ha : fst (orc s1 (avail DOUT s1)) = avail DOUT s1) by (destruct (H5 eq_refl); lia).
+        unfold avail, s1, clear in *; cbn in *. lia. }
+      destruct Hbase as [Hbase Hadv].
+      destruct (ready_call size orc s1 (avail DOUT s1)) as [s2 failed]. cbn [fst snd] in *.
+      destruct failed.
+      { refine (conj Hi2 (conj Hbase (conj _ _))); discriminate. }
+      destruct (eof s2) eqn:E2.
+      { refine (conj Hi2 (conj Hbase (conj _ _))); [intros _; right; exact E2 | discriminate]. }
+      specialize (IH s2 Hi2 Hbase).
+      destruct (lzma_seek_loop DOUT LB size orc f s2 bc) as [s' st].
+      destruct IH as (A & B & C & D).
+      refine (conj A (conj B (conj C _))).
+      intros Hf. apply D. specialize (Hadv eq_refl eq_refl). lia.
   Qed.
 
-  (* _GD_LzmaSeek (read mode): the invariant holds afterwards and the cursor is at
-     the target, or at the end of what could be decoded when the stream is shorter *)
+  (* _GD_LzmaSeek (read mode): the invariant holds afterwards whatever happened;
+     when the call completes the cursor is at the target byte, or at the end of
+     the stream when that is shorter; it cannot spin *)
   Lemma lzma_seek_spec fuel s bc :
     Inv s -> 0 <= bc ->
-    let s' := lzma_seek DOUT LB size orc fuel s bc in
-    Inv s' /\ (cursor s' = bc \/ (cursor s' = tout s' /\ tout s' < bc)).
+    let '(s', st) := lzma_seek DOUT LB size orc fuel s bc in
+    Inv s' /\ (st = LzDone -> cursor s' = Z.min bc L) /\ (L < Z.of_nat fuel -> st <> LzFuel).
   Proof.
     intros Hi Hbc. unfold lzma_seek.
     destruct ((bc <? tout s) && (base s <=? bc)) eqn:E.
     - apply andb_prop in E as [E1 E2]. apply Z.ltb_lt in E1. apply Z.leb_le in E2.
-      split; [unfold Inv, base in *; cbn; lia | left; unfold cursor, base; cbn; lia].
+      destruct Hi as (I1 & I2 & I3 & I4 & I5 & I6).
+      split; [unfold Inv, base in *; cbn; repeat apply conj; try lia; exact I6|].
+      split; [intros _; unfold cursor, base; cbn; lia | discriminate].
     - set (s0 := if bc <? base s then {| tout := 0; nout := 0; off := 0; eof := false |} else s).
-      assert (Hi0 : Inv s0) by (unfold s0; destruct (bc <? base s); [unfold Inv; cbn; lia | exact Hi]).
-      assert (Hb0 : tout s0 < bc \/ base s0 <= bc).
-      { unfold s0. destruct (Z.ltb_spec bc (base s)); [right; unfold base; cbn; lia | right; assumption]. }
-      destruct (lzma_seek_loop_spec bc fuel s0 Hi0 Hb0) as [Hi1 Hb1].
-      set (s1 := lzma_seek_loop DOUT LB size orc fuel s0 bc) in *.
-      destruct (Z.ltb_spec (tout s1) bc) as [Hlt|Hge].
-      + split; [unfold Inv in *; cbn; lia | right; unfold cursor, base; cbn; lia].
-      + destruct Hb1 as [Hb1|Hb1]; [lia|].
-        split; [unfold Inv, base in *; cbn; lia | left; unfold cursor, base; cbn; lia].
+      assert (Hi0 : Inv s0) by (unfold s0; destruct (bc <? base s); [apply inv_fresh | exact Hi]).
+      assert (Hb0 : base s0 <= bc).
+      { unfold s0. destruct (Z.ltb_spec bc (base s)); [unfold base; cbn; lia | assumption]. }
+      pose proof (lzma_seek_loop_spec bc fuel s0 Hi0 Hb0) as Hl.
+      destruct (lzma_seek_loop DOUT LB size orc fuel s0 bc) as [s1 st].
+      destruct Hl as (A & B & C & D).
+      assert (Hfu : L < Z.of_nat fuel -> st <> LzFuel).
+      { intros Hf. apply D. destruct Hi0 as (? & ? & ? & ? & ? & ?). lia. }
+      destruct st.
+      + specialize (C eq_refl). destruct A as (I1 & I2 & I3 & I4 & I5 & I6).
+        destruct (Z.ltb_spec (tout s1) bc) as [Hlt|Hge].
+        * split; [unfold Inv; cbn; repeat apply conj; try lia; exact I6|].
+          split; [|exact Hfu]. intros _. destruct C as [C|C]; [lia|]. specialize (I6 C).
+          unfold cursor, base; cbn. lia.
+        * split; [unfold Inv, base in *; cbn; repeat apply conj; try lia; exact I6|].
+          split; [|exact Hfu]. intros _. unfold cursor, base; cbn. lia.
+      + split; [exact A|]. split; [discriminate | exact Hfu].
+      + split; [exact A|]. split; [discriminate | exact Hfu].
   Qed.
 End Proofs.
 
@@ -178,11 +307,11 @@ End Proofs.
    hypothesis orc_ok is satisfiable (for every buffer size and stream length) *)
 Lemma full_orc_ok DOUT L s nreq : Inv DOUT L s -> ok_resp DOUT L s nreq (full_orc DOUT L s nreq).
 Proof.
-  intros Hi. unfold Inv in Hi. unfold ok_resp, full_orc, avail, ready. cbn [fst snd].
+  intros (I1 & I2 & I3 & I4 & I5 & I6). unfold ok_resp, full_orc, avail, ready. cbn [fst snd].
   set (a := Z.min (DOUT - nout s) (L - tout s)).
   split; [unfold a; lia|]. split; [unfold a; lia|]. split; [unfold a; lia|]. split.
-  - intros H. apply Z.eqb_eq in H. exact H.
-  - intros H. apply Z.eqb_neq in H. left. unfold a in *. lia.
+  - destruct (Z.eqb_spec (tout s + a) L); [intros _; assumption | discriminate].
+  - destruct (Z.eqb_spec (tout s + a) L); [discriminate|]. intros _. left. unfold a in *. lia.
 Qed.
 
 (* uniform statements (all size hypotheses listed) for the property file *)
@@ -190,20 +319,43 @@ Lemma lzma_steps_uniform :
   forall DOUT LB size L orc, 0 < size -> size - 1 <= LB -> LB <= DOUT -> 0 <= L ->
     (forall s nreq, Inv DOUT L s -> ok_resp DOUT L s nreq (orc s nreq)) ->
     Inv DOUT L fresh /\
-    (forall s nreq, Inv DOUT L s -> Inv DOUT L (ready_call size orc s nreq) /\ cursor (ready_call size orc s nreq) = cursor s) /\
+    (forall s nreq, Inv DOUT L s -> Inv DOUT L (fst (ready_call size orc s nreq)) /\
+                                    cursor (fst (ready_call size orc s nreq)) = cursor s) /\
     (forall s part, Inv DOUT L s -> 0 <= part -> part <= ready s -> part <= LB ->
         Inv DOUT L (clear LB s part) /\ cursor (clear LB s part) = tout s - part).
 Proof.
   intros DOUT LB size L orc H1 H2 H3 H4 Ho. split; [apply (inv_fresh DOUT LB size L); assumption|]. split.
-  - intros s nreq Hi. apply (ready_call_inv DOUT size L orc Ho); assumption.
-  - intros s part. apply (clear_inv DOUT LB L H3).
+  - intros s nreq Hi. apply (ready_call_inv DOUT size L orc); assumption.
+  - intros s part. apply (clear_inv DOUT LB L); assumption.
 Qed.
 
 Lemma lzma_read_uniform :
   forall DOUT LB size L orc, 0 < size -> size - 1 <= LB -> LB <= DOUT -> 0 <= L ->
     (forall s nreq, Inv DOUT L s -> ok_resp DOUT L s nreq (orc s nreq)) ->
     forall fuel s nmemb, Inv DOUT L s -> 0 <= nmemb ->
-    let '(s', n, out) := lzma_read LB size orc fuel s nmemb in
-    Inv DOUT L s' /\ 0 <= n <= nmemb /\ chain (cursor s) out (cursor s') /\ total out = n * size
-    /\ cursor s' = cursor s + n * size /\ cursor s' <= L.
-Proof. intros DOUT LB size L orc H1 H2 H3 H4 Ho. exact (lzma_read_spec DOUT LB size L orc H1 H2 H3 Ho). Qed.
+    let '(s', n, out, st) := lzma_read LB size orc fuel s nmemb in
+    Inv DOUT L s' /\ chain (cursor s) out (cursor s') /\ cursor s' <= L /\
+    (st <> LzErr -> 0 <= n <= nmemb /\ total out = n * size /\ cursor s' = cursor s + n * size) /\
+    (st = LzDone -> n = Z.min nmemb ((L - cursor s) / size)).
+Proof. intros DOUT LB size L orc H1 H2 H3 H4 Ho. apply (lzma_read_spec DOUT LB size L orc); assumption. Qed.
+
+Lemma lzma_read_terminates_uniform :
+  forall DOUT LB size L orc, 0 < size -> size - 1 <= LB -> LB + size <= DOUT -> 0 <= L ->
+    (forall s nreq, Inv DOUT L s -> ok_resp DOUT L s nreq (orc s nreq)) ->
+    forall fuel s nmemb, Inv DOUT L s -> 0 <= nmemb -> 2 * nmemb + 1 < Z.of_nat fuel ->
+    snd (lzma_read LB size orc fuel s nmemb) <> LzFuel.
+Proof.
+  intros DOUT LB size L orc H1 H2 H3 H4 Ho fuel s nmemb Hi Hn Hf. unfold lzma_read.
+  apply (lzma_read_loop_fuel DOUT LB size L orc) with (nmemb := nmemb); try assumption; try lia.
+  unfold stale. destruct (LB <? nout s); lia.
+Qed.
+
+Lemma lzma_seek_uniform :
+  forall DOUT LB size L orc, 0 < size -> size - 1 <= LB -> LB + size <= DOUT -> 0 <= L ->
+    (forall s nreq, Inv DOUT L s -> ok_resp DOUT L s nreq (orc s nreq)) ->
+    forall fuel s bc, Inv DOUT L s -> 0 <= bc ->
+    let '(s', st) := lzma_seek DOUT LB size orc fuel s bc in
+    Inv DOUT L s' /\ (st = LzDone -> cursor s' = Z.min bc L) /\ (L < Z.of_nat fuel -> st <> LzFuel).
+Proof.
+  intros DOUT LB size L orc H1 H2 H3 H4 Ho. apply (lzma_seek_spec DOUT LB size L orc); try assumption; lia.
+Qed.
